@@ -6,7 +6,7 @@ cd /verif
 miss=0; n=0
 for d in seeded/*/; do
   id=$(basename $d); prop=$(python3 -c "import json;print(json.load(open('$d/meta.json'))['breaks_property'])")
-  git -C /repo apply $d/patch.diff || { echo "$id: PATCH DOES NOT APPLY"; miss=$((miss+1)); continue; }
+  git -C /repo apply /verif/$d/patch.diff || { echo "$id: PATCH DOES NOT APPLY"; miss=$((miss+1)); continue; }
   out=$(python3 check $prop quick 2>&1); code=$?
   git -C /repo checkout -q -- . ; git -C /repo clean -fdq
   n=$((n+1))
